@@ -53,11 +53,28 @@ def run(ctx) -> None:
             if call_attr(c) == "set_value" and c.args and "increment_time" in norm(c.args[0]):
                 t = b.tagref(c.func.value, uct)
                 incs[t] = n
+    # every write of the two run clocks in update_calculated_tags must be `<its own value> + increment_time`: the increment is
+    # measured on the monotonic clock, so the clock never decreases and advances by exactly the tick increments; a value
+    # derived from tick_time (wall clock) differences steps with the wall clock
+    for n in g.nodes:
+        for c in n.calls():
+            if call_attr(c) == "set_value" and c.args and isinstance(c.func, ast.Attribute):
+                t = b.tagref(c.func.value, uct)
+                if t in ("PROCESS_TIME", "RUN_TIME") and t not in incs:
+                    ctx.fail("R07a", uct, c, f"update_calculated_tags: {t} is advanced by increment_time",
+                             f"`{norm(c)[:90]}` does not add the tick's increment_time to the tag's own value: derived from tick_time "
+                             "(the wall clock) the clock decreases when the wall clock is stepped back and jumps when it is stepped "
+                             "forward, also while Paused")
     if set(incs) != {"PROCESS_TIME", "RUN_TIME"}:
-        raise AnchorError(f"update_calculated_tags: increment sites found for {sorted(incs)} (expected PROCESS_TIME and RUN_TIME)")
+        if any(fd.rule == "R07a" for fd in ctx.findings):
+            ctx.floor_failures.append(f"update_calculated_tags: increment sites found for {sorted(incs)} only")
+            incs = {k: v for k, v in incs.items()}
+        else:
+            raise AnchorError(f"update_calculated_tags: increment sites found for {sorted(incs)} (expected PROCESS_TIME and RUN_TIME)")
     base = sd(Explorer(ctx, faults=False, track=()).initial())
     allowed = {"PROCESS_TIME": {"Running"}, "RUN_TIME": set(b.sys_members) - {"Stopped", "Restarting"}}
     reached: dict[str, set] = {"PROCESS_TIME": set(), "RUN_TIME": set()}
+    allowed = {k: v for k, v in allowed.items() if k in incs}
     for sysv in b.sys_members:
         d = dict(base)
         d["sys"] = sysv
